@@ -532,6 +532,10 @@ struct World {
 	}
 
 	// ---- canonical state ---------------------------------------------------------------------------------
+	// members added by later library versions are included when present (SFINAE), so the harness builds against both
+	template<class T> static auto dump_acked(std::string &o, const T &r, int) -> decltype((void)r.acked, void())
+	{ for (RBC_TagCheck::const_iterator k = r.acked.begin(); k != r.acked.end(); ++k) o += k->first + ","; o += ";"; }
+	template<class T> static void dump_acked(std::string &o, const T &, long) { o += ";"; }
 	static void dump_list(std::string &o, const RBC_BufferList &l) { for (RBC_BufferList::const_iterator i = l.begin(); i != l.end(); ++i) o += zstr(*i) + ","; o += ";"; }
 	static void dump_tc(std::string &o, const std::vector<RBC_TagCheck> &v)
 	{
@@ -560,6 +564,7 @@ struct World {
 			o += ";";
 			for (RBC_TagMpz::const_iterator i = r.dbar.begin(); i != r.dbar.end(); ++i) o += i->first + "=" + zstr(i->second) + ",";
 			o += ";";
+			dump_acked(o, r, 0);
 			for (std::map<std::string, RBC_TagCount>::const_iterator i = r.e_d.begin(); i != r.e_d.end(); ++i) { o += i->first + "="; for (RBC_TagCount::const_iterator k = i->second.begin(); k != i->second.end(); ++k) o += k->first + ":" + drv::str(k->second) + ","; o += "/"; }
 			o += ";";
 			for (std::map<std::string, RBC_TagCount>::const_iterator i = r.r_d.begin(); i != r.r_d.end(); ++i) { o += i->first + "="; for (RBC_TagCount::const_iterator k = i->second.begin(); k != i->second.end(); ++k) o += k->first + ":" + drv::str(k->second) + ","; o += "/"; }
